@@ -262,4 +262,25 @@ theorem assumptions_of_slot (c : Config) (p : Params) (hs : strobes c.tok.timer 
     rw [envOk_eq c hs] at he
     exact inv_step hinv (skelIn_ok c s i) hh1 he (delay_le_max _ _ hs) hT
 
+/-! ### Non-vacuity -/
+
+/-- Non-vacuity of `assumptions_of_slot`: the NAK history of `C20CycMain` with the pulse of cycle 7 addressed to the
+slot (the handshake is requested one cycle later), and the one-byte data history with the pulse of cycle 7 answered
+three cycles later (slot armed 0..2, then sending). -/
+def withPulseAt (k : Nat) (ins : List In) : List (In × Bool) :=
+  (List.zip ins (List.range ins.length)).map (fun (i, t) => (i, t == k))
+
+example : hostHolds exCfg exPar init ghostInit exNak = true ∧
+    slotHolds exCfg exPar init ghostInit .idle (withPulseAt 7 exNak) = true := by decide +kernel
+
+example : hostHolds exCfg exPar init ghostInit exData = true ∧
+    slotHolds exCfg exPar init ghostInit .idle (withPulseAt 7 exData) = true := by decide +kernel
+
+/-- A request without a pulse addressed to the slot breaks the contract. -/
+example : slotHolds exCfg exPar init ghostInit .idle (withPulseAt 99 exNak) = false := by decide +kernel
+
+/-- Non-vacuity of `merge_ok`: an addressed slot that answers NAK next to an idle silent one. -/
+example : (cstep 8 .idle true false false false { hs := true }).1 = true ∧
+    (cstep 8 .idle false false false false {}).1 = true := by decide
+
 end LunaVerif.DevCyc
